@@ -61,3 +61,49 @@ func TestVP_C22_LargeInputs(t *testing.T) {
 		_ = bytes.MinRead
 	})
 }
+
+type vpC22FailingWriter struct {
+	left int
+}
+
+func (w *vpC22FailingWriter) Write(p []byte) (int, error) {
+	if len(p) > w.left {
+		n := w.left
+		w.left = 0
+		return n, fmt.Errorf("vp: destination failed")
+	}
+	w.left -= len(p)
+	return len(p), nil
+}
+
+// A compression call whose destination fails (a client that went away) must not affect later calls:
+// pooled writers are reused, and the next caller's output must still decode to exactly its own input.
+func TestVP_C22_AfterFailedDestination(t *testing.T) {
+	codecs := vpC22Codecs()
+	rapid.Check(t, func(t *rapid.T) {
+		c := codecs[rapid.IntRange(0, len(codecs)-1).Draw(t, "codec")]
+		lvls := vpC22Levels(c)
+		level := lvls[rapid.IntRange(0, len(lvls)-1).Draw(t, "lvl")]
+		poison := bytes.Repeat([]byte("POISON-other-callers-data "), rapid.IntRange(1, 4000).Draw(t, "poisonlen"))
+		nfail := rapid.IntRange(1, 3).Draw(t, "nfail")
+		for i := 0; i < nfail; i++ {
+			fw := &vpC22FailingWriter{left: rapid.SampledFrom([]int{0, 1, 5, 10, 100, 4000}).Draw(t, "failafter")}
+			c.writeLvl(fw, poison, level) // error expected; the point is what it leaves behind
+		}
+		in := bytes.Repeat([]byte("own data of the next caller "), rapid.IntRange(0, 3000).Draw(t, "inlen"))
+		ncalls := rapid.IntRange(1, 4).Draw(t, "ncalls")
+		for k := 0; k < ncalls; k++ {
+			call := &vpC22Call{in: in, level: level, via: rapid.SampledFrom([]int{4, 4, 0, 5}).Draw(t, "via")}
+			if call.via == 5 && c.appendDef == nil {
+				call.via = 4
+			}
+			c.runAny(call)
+			if msg := c.verifyAny(call); msg != "" {
+				t.Fatalf("%s level %d via %d after %d call(s) whose destination failed: %s", c.name, level, call.via, nfail, msg)
+			}
+		}
+		vpCase("after-failed-destination/"+c.name, true, fmt.Sprint(c.name, level, len(poison), nfail, len(in)), func() string {
+			return fmt.Sprintf("%s level=%d poison=%d bytes x%d failing calls, then %d calls with %d-byte input", c.name, level, len(poison), nfail, ncalls, len(in))
+		})
+	})
+}
